@@ -14,7 +14,7 @@ ASSUMPTIONS = ["prior weights on the simplex and > 0, prior variances > 0, prior
                "monotonicity of the relevance-penalised likelihood follows from exact E-step (C02) + the M-step being the stationary point of Q(mu) - r/2 sum (mu-mu0)^2/var (proved here) + Jensen (trusted)"]
 EXHAUSTIVE = ["8 combinations of update_means/variances/weights", "Reynolds / scalar alpha / per-component alpha", "statistics given as one object or split in two (reduced by the wrapper)"]
 OUTSIDE = ["sizes beyond (C,D) listed", "rounding"]
-SIZES = {"quick": [(1, 1), (2, 2)], "thorough": [(1, 1), (2, 2), (3, 2), (3, 3)]}
+SIZES = {"quick": [(1, 1), (2, 2)], "thorough": [(1, 1), (2, 2), (3, 2)]}
 KNOWN = "C05-map-variance-prior-mean-not-squared"
 
 
